@@ -959,12 +959,22 @@ impl Hist {
                 let i = *rnd::pick(&mut w.r, &live);
                 let pi = w.positions[i].clone();
                 let (mut nl, mut nu) = self.gen_range(w, p);
-                match w.r.gen_range(0..10) {
+                match w.r.gen_range(0..12) {
                     0 => {
                         nl = pi.lower;
                         nu = pi.upper;
                     }
                     1 => nu = nl,
+                    // a bound off the tick-spacing grid (must be refused: no tick array slot stands for it)
+                    2 if pool.tick_spacing > 1 => {
+                        let off = w.r.gen_range(1..pool.tick_spacing as i32);
+                        if w.r.gen() {
+                            nu += off;
+                        } else {
+                            nl += off;
+                        }
+                        acc.count("repositions_onto_an_off_grid_bound");
+                    }
                     _ => {}
                 }
                 let (tl, tu) = w.pos_arrays(&pi);
